@@ -227,6 +227,9 @@ func runSyncer(prop, tier string, r *rng) {
 	syncerCase(prop, 10, 0, nil, []string{"gossip valid 11", "gossip valid 12", "gossip valid 20", "wait", "gossip valid 15", "gossip forged 25", "gossip valid 30", "wait"})
 	syncerCase(prop, 10, 0, []string{"prefix:3", "prefix:1", "ok"}, []string{"gossip valid 40", "wait"})
 	syncerCase(prop, 10, 0, []string{"err"}, []string{"gossip valid 30", "gossip valid 31", "wait"})
+	// an error AFTER part of the range was fetched in the same attempt: the fetched part stays, the next head resumes from it
+	syncerCase(prop, 10, 0, []string{"prefix:3", "err"}, []string{"gossip valid 40", "wait", "gossip valid 41", "wait"})
+	syncerCase(prop, 10, 0, []string{"prefix:2", "prefix:1", "errcanceled", "prefix:4", "err"}, []string{"gossip valid 30", "wait", "gossip valid 35", "wait", "gossip valid 36", "wait"})
 	syncerCase(prop, 10, 0, []string{"empty"}, []string{"gossip valid 30", "gossip valid 33", "wait"})
 	syncerCase(prop, 10, 0, []string{"shift"}, []string{"gossip valid 30", "gossip valid 34", "wait"})
 	syncerCase(prop, 10, 3, nil, []string{"gossip valid 30", "gossip forged 50", "gossip valid 60", "wait"}) // bifurcation (trust range 3)
